@@ -1,5 +1,6 @@
 import Driver.Common
 import Sourmash.Model.Select
+import Sourmash.Spec.Select
 import Sourmash.Model.Csv
 import Sourmash.Model.Manifest
 /-! C12 driver: records from signatures, manifests through CSV text, record look-up.
@@ -31,6 +32,10 @@ structure St where
   /-- rows read by `mcsv` (locations already reduced to the signature's position), and for each row
       the flat index of the sketch it describes -/
   csv : Option (List Record × List Nat) := none
+  /-- histories: backend of `hnew`; per slot the model's current manifest (rows with their position
+      in the original manifest) and, independently, the positions the SPECIFICATION says are left -/
+  hbe : String := ""
+  slots : List (Option (List (Nat × Record) × List Nat)) := [none, none, none]
 
 def seed0 : Nat := 1000
 
@@ -174,7 +179,184 @@ def lookupStored (st : St) (i : Nat) (be : String) : Resp :=
       | .ok () => { model := showLookup md5of c i, spec := spec }
     else { model := showLookup md5of c i, spec := spec }
 
+/-! ### histories (`h…` lines)
+
+One collection per slot.  Model: `Collection` = manifest + storage; `intersect_manifest` and `select`
+replace the manifest, `clone` copies both, a storage swap keeps the content; every look-up is
+`sigForDataset` / `sigFromRecord` on the manifest as it is NOW.  Specification: the rows left after
+`hisect` are those that are the same record as one of the given rows, after `hsel` those whose sketch
+satisfies the request; look-up `i` returns the sketch that the `i`-th row left was built from. -/
+
+def parseSel (ws : List String) : Selection :=
+  match ws with
+  | [k, m, a, n, sc] =>
+    { ksize := if k == "-" then none else some k.toNat!
+      moltype := if m == "-" then none else some (molOfString m)
+      abund := if a == "-" then none else some (a == "1")
+      num := if n == "-" then none else some n.toNat!
+      scaled := if sc == "-" then none else some sc.toNat! }
+  | _ => {}
+
+structure HistEnv where
+  md5of : Sketch → Select.Bytes
+  /-- the signatures as the backend's storage hands them back -/
+  sigs : List Sig
+  recs : List Record
+  storage : List (Select.Bytes × Sig)
+  /-- every sketch with the position of its signature, in manifest order, as the storage returns it -/
+  flat : List (Nat × Sketch)
+  /-- … and as the manifest was built from it (the zip's manifest is written by the harness from the
+      signatures in memory, before they went through JSON) -/
+  flatRec : List (Nat × Sketch)
+  /-- the record the property demands for each sketch (`none`: it says nothing) -/
+  specRecs : Option (List Record)
+
+/-- the collection `hnew <be>` builds: `.error` = the answer when there is none -/
+def histEnv (st : St) (be : String) : Except String HistEnv :=
+  let tbl := st.md5s ++ st.md5s.map (fun p => (stored p.1, p.2))
+  let md5of := md5Lookup tbl
+  let sigs := if be == "mem" then st.sigs else st.sigs.map storedSig
+  let flatOf (l : List Sig) := (l.zipIdx.map (fun (sg, si) => sg.sketches.map (fun s => (si, s)))).flatten
+  let flat := flatOf sigs
+  let recSigs := if be == "zip" then st.sigs else sigs
+  let flatRec := flatOf recSigs
+  let specRecs := (recSigs.zipIdx.map (fun (sg, si) => fromSigSpec md5of sg (natBytes si))).foldr
+    (fun o acc => match o, acc with | some l, some r => some (l ++ r) | _, _ => none) (some [])
+  if be == "mem" then
+    match Collection.fromSigs md5of st.sigs with
+    | none => .error "PANIC"
+    | some c => .ok { md5of, sigs, recs := c.manifest, storage := c.storage, flat, flatRec, specRecs }
+  else if be == "fs" || be == "zip" || be == "rdb" then
+    match storedParts md5of 0 sigs, storedParts md5of 0 recSigs with
+    | some (_, sts), some (recs, _) =>
+      if be == "rdb" then
+        match collectionSetCheck recs with
+        | .error e => .error (showSelErr e)
+        | .ok () =>
+          -- building the index loads every dataset once (a look-up that panics takes the build with it)
+          let c : Collection := { manifest := recs, storage := sts }
+          if (List.range recs.length).any (fun i => (c.sigForDataset i).isNone) then .error "PANIC"
+          else .ok { md5of, sigs, recs, storage := sts, flat, flatRec, specRecs }
+      else .ok { md5of, sigs, recs, storage := sts, flat, flatRec, specRecs }
+    | _, _ => .error "PANIC"
+  else .error "bad-backend"
+
+def showRows (l : List (Nat × Record)) : String := showRecords (l.map (·.2))
+
+def showLoaded (md5of : Sketch → Select.Bytes) (loc : Select.Bytes) (r : Option (Except Select.Err Sig)) : String :=
+  match r with
+  | none => "PANIC"
+  | some (.error e) => showSelErr e
+  | some (.ok sg) =>
+    String.fromUTF8! (ByteArray.mk loc.toArray) ++ "=" ++
+      (if sg.sketches.isEmpty then "-" else ";".intercalate (sg.sketches.map (fun s => descr (md5of s) s)))
+
+def setSlot (st : St) (a : Nat) (v : Option (List (Nat × Record) × List Nat)) : St :=
+  { st with slots := st.slots.set a v }
+
+def stepHist (st : St) (ws : List String) : St × Resp :=
+  match ws with
+  | ["hnew", be] =>
+    let st := { st with hbe := be, slots := [none, none, none] }
+    (match histEnv st be with
+     | .error e => (st, { model := e })
+     | .ok env =>
+       let cur := env.recs.zipIdx.map (fun (r, p) => (p, r))
+       (setSlot st 0 (some (cur, List.range env.recs.length)), { model := "ok " ++ toString env.recs.length }))
+  | op :: a :: rest =>
+    let a := a.toNat!
+    match histEnv st st.hbe, (st.slots[a]?).join with
+    | .ok env, some (cur, spos) =>
+      if op == "hclone" then
+        match rest with
+        | [b] => (setSlot st b.toNat! (some (cur, spos)), { model := "ok" })
+        | _ => (st, { model := "bad-op" })
+      else if op == "hswap" then (st, { model := "ok" })
+      else if op == "hisect" then
+        match rest with
+        | [l] =>
+          let idx := natList l
+          if idx.any (fun q => (env.recs[q]?).isNone) then (st, { model := "PANIC" }) else
+          let other := idx.filterMap (fun q => env.recs[q]?)
+          let cur' := cur.filter (fun (_, r) => other.any (fun q => Manifest.recEq r q))
+          let spos' := spos.filter (fun p => match env.recs[p]? with
+            | some r => other.any (sameRec r) | none => false)
+          (setSlot st a (some (cur', spos')),
+           { model := showRows cur', spec := showRecords (spos'.filterMap (fun p => env.recs[p]?)) })
+        | _ => (st, { model := "bad-op" })
+      else if op == "hsel" then
+        let sel := parseSel rest
+        let cur' := cur.filter (fun (_, r) => rowValid sel r)
+        let spos' := spos.filter (fun p => match env.flatRec[p]? with
+          | some (_, s) => satisfies sel s.described | none => false)
+        (setSlot st a (some (cur', spos')),
+         { model := showRows cur', spec := showRecords (spos'.filterMap (fun p => env.recs[p]?)) })
+      else if op == "hiter" then
+        let line (i : Nat) (loc md5 : Select.Bytes) : String :=
+          toString i ++ ":" ++ String.fromUTF8! (ByteArray.mk loc.toArray) ++ ":" ++ String.fromUTF8! (ByteArray.mk md5.toArray)
+        let model := cur.zipIdx.map (fun ((_, r), i) => line i r.internalLocation r.md5)
+        let spec := spos.zipIdx.filterMap (fun (p, i) => (env.flat[p]?).map (fun (si, s) => line i (natBytes si) (env.md5of s)))
+        (st, { model := if model.isEmpty then "-" else "|".intercalate model,
+               spec := if spec.isEmpty then "-" else "|".intercalate spec })
+      else
+        match rest with
+        | [i] =>
+          let i := i.toNat!
+          let c : Collection := { manifest := cur.map (·.2), storage := env.storage }
+          let specSketch : String :=
+            match (spos[i]?).bind (fun p => env.flat[p]?) with
+            | some (si, s) =>
+              let s := if op == "hlazy" then stored s else s
+              toString si ++ "=" ++ descr (env.md5of s) s
+            | none => "-"
+          if op == "hget" || op == "hfr" then
+            match c.manifest[i]? with
+            | none => (st, { model := "PANIC" })
+            | some r => (st, { model := showLoaded env.md5of r.internalLocation (c.sigFromRecord r), spec := specSketch })
+          else if op == "hrec" then
+            match c.manifest[i]? with
+            | none => (st, { model := "PANIC" })
+            | some r =>
+              (st, { model := showRecord r,
+                     spec := match (spos[i]?), env.specRecs with
+                       | some p, some l => (match l[p]? with | some r => showRecord r | none => "-")
+                       | _, _ => "-" })
+          else if op == "hlazy" then
+            match c.manifest[i]? with
+            | none => (st, { model := "PANIC" })
+            | some r =>
+              -- a store that was not read yet: refused, read (through the JSON form, whatever the
+              -- backend), selected
+              let model :=
+                match Selection.fromRecord r, loadSig c.storage r.internalLocation with
+                | some sel, some sg =>
+                  let s0 : Store := { data := none, backing := some (storedSig sg) }
+                  (match s0.select sel with
+                   | .ok s1 => (match s1.read with
+                     | some (g, _) => showLoaded env.md5of r.internalLocation (some (.ok g))
+                     | none => "err ReadDataError")
+                   | .error _ =>
+                     match s0.read with
+                     | none => "err ReadDataError"
+                     | some (_, s1) =>
+                       match s1.select sel with
+                       | .error e => showSelErr e
+                       | .ok s2 => (match s2.read with
+                         | some (g, _) => showLoaded env.md5of r.internalLocation (some (.ok g))
+                         | none => "err ReadDataError"))
+                | _, _ => "PANIC"
+              (st, { model := model, spec := specSketch })
+          else (st, { model := "bad-op" })
+        | _ => (st, { model := "bad-op" })
+    | .error e, some _ => (st, { model := e })
+    | _, none => (st, { model := "none" })
+  | _ => (st, { model := "bad-op" })
+
+def isHistOp (op : String) : Bool :=
+  ["hnew", "hclone", "hisect", "hsel", "hswap", "hget", "hfr", "hlazy", "hrec", "hiter"].contains op
+
 def stepC12 (st : St) (ws : List String) : St × Resp :=
+  if (ws.head?.map isHistOp).getD false then stepHist st ws else
   match ws with
   | "case" :: _ => ({}, { model := "ok" })
   | ["rec", loc, m5, m5s, k, mt, n, sc, nh, ab, nm, fnm] =>
@@ -268,6 +450,7 @@ def stepC12 (st : St) (ws : List String) : St × Resp :=
             (if sg.sketches.isEmpty then "-" else ";".intercalate (sg.sketches.map (fun s => descr (md5of s) s)))
       (st, { model := model, spec := spec })
   | ["zipcheck", _] => (st, { model := "-", spec := "faithful" })
+
   | _ => (st, { model := "bad-op" })
 
 def main : IO Unit := Driver.run ({} : St) stepC12
